@@ -387,10 +387,36 @@ class _ConnQueue:
         self.conn.send(obj)
 
 
+def _cover_start():
+    """Development aid (tools/coverage_all): with VERIF_COVER=<dir> every process records which
+    lines of the code under test it executes. No effect on what a check decides."""
+    d = os.environ.get("VERIF_COVER")
+    if not d:
+        return None
+    import coverage
+    from .core import MIDDLEWARE
+    cur = coverage.Coverage.current()
+    if cur is not None:
+        cur.stop()
+    os.makedirs(d, exist_ok=True)
+    cov = coverage.Coverage(data_file=os.path.join(d, "cov"), data_suffix=True,
+                            source=[MIDDLEWARE], concurrency=["thread"])
+    cov.start()
+    return cov
+
+
+def _cover_stop(cov):
+    if cov is not None:
+        cov.stop()
+        cov.save()
+
+
 def _worker_entry(modname, stage_idx, k, W, seed_base, tier, conn, known_sigs):
+    cov = _cover_start()
     try:
         _worker_main(modname, stage_idx, k, W, seed_base, tier, _ConnQueue(conn), known_sigs)
     finally:
+        _cover_stop(cov)
         try:
             conn.close()
         except Exception:   # noqa
@@ -587,9 +613,20 @@ def main(argv):
         seed_base = int(os.environ.get("VERIF_SEED", "1"))
     except ValueError:
         seed_base = 1
+    cov = None
+    # every temporary file or directory of this run (the checks', the code under test's) lives
+    # under one directory that is removed when the run ends - workers are terminated without
+    # notice, so nothing can be left to their exit handlers
+    import shutil
+    import tempfile
+    tmp_root = tempfile.mkdtemp(prefix="verif-run-%s-" % prop)
+    saved_tmp = (os.environ.get("TMPDIR"), tempfile.tempdir)
+    os.environ["TMPDIR"] = tmp_root
+    tempfile.tempdir = tmp_root
     try:
         from . import env
         env.prepare()
+        cov = _cover_start()
         mod = importlib.import_module("checks.%s" % prop.lower())
         if a.replay:
             v = replay_file(mod, a.replay)
@@ -717,3 +754,11 @@ def main(argv):
     except Exception:   # noqa
         print("HARNESS-ERROR property=%s\n%s" % (prop, traceback.format_exc()))
         return 2
+    finally:
+        _cover_stop(cov)
+        tempfile.tempdir = saved_tmp[1]
+        if saved_tmp[0] is None:
+            os.environ.pop("TMPDIR", None)
+        else:
+            os.environ["TMPDIR"] = saved_tmp[0]
+        shutil.rmtree(tmp_root, ignore_errors=True)
